@@ -70,8 +70,12 @@ def verify(E, contract, label=None, args_order=None):
         contract.before_body(E, cx, a)
         E.verifying = q
         names = [x.arg for x in fv.node.args.posonlyargs + fv.node.args.args]
-        pos = [a[n] for n in names if n in a]
-        kw = {k: v for k, v in a.items() if k not in names and not k.startswith('$')}
+        pos = []
+        for n in names:
+            if n not in a:
+                break
+            pos.append(a[n])
+        kw = {k: v for k, v in a.items() if k not in names[:len(pos)] and not k.startswith('$')}
         try:
             r = E.call_function(fv, pos, kw, cx, fv.node.lineno)
         except PyExc as e:
@@ -124,6 +128,9 @@ class LoopSpec:
     def after_havoc(self, E, cx, env, entry):
         pass
 
+    def ghost_step(self, E, cx, env, entry):
+        """Ghost update performed after the loop body, before the invariant is re-established."""
+
     # ------------------------------------------------------------------
     def _assigned(self, st):
         names = set()
@@ -133,22 +140,41 @@ class LoopSpec:
         return names
 
     def _check_modifies(self, st, extra=()):
+        """Locals assigned in the loop but unknown to the specification are reported back; they are
+        havoc'd generically and every refutation on such a path is downgraded to `undecided`
+        (the invariant's vocabulary does not cover the loop state: contract needs attention)."""
         assigned = self._assigned(st)
-        missing = assigned - set(self.modifies) - set(extra)
-        if missing:
-            raise Unsupported(f'loop at line {st.lineno}: locals {sorted(missing)} are assigned but not in `modifies`')
+        return sorted(assigned - set(self.modifies) - set(extra))
+
+    def _havoc_unknown(self, E, cx, fr, names):
+        import z3 as _z3
+        for nm in names:
+            cur = fr.locals.get(nm)
+            if isinstance(cur, SV):
+                fr.locals[nm] = type(cur)(cx.fresh('hv_' + nm, cur.e.sort()))
+            elif isinstance(cur, bool) or cur is None:
+                continue
+            elif isinstance(cur, int):
+                fr.locals[nm] = SV(cx.fresh('hv_' + nm, _z3.IntSort()))
+            elif hasattr(cur, 'numerator'):
+                fr.locals[nm] = SV(cx.fresh('hv_' + nm, _z3.RealSort()))
+            elif hasattr(cur, 'e') and hasattr(cur.e, 'sort') and type(cur).__name__ == 'Opaque':
+                fr.locals[nm] = type(cur)(cx.fresh('hv_' + nm, cur.e.sort()))
+        if names:
+            cx.state['weak_invariant'] = f'loop assigns locals outside the invariant vocabulary: {names}'
 
     def _label(self, fr, st):
         return f'loop{st.lineno}'
 
     def run_while(self, E, st, fr, cx):
-        self._check_modifies(st)
+        unknown = self._check_modifies(st)
         lab = self._label(fr, st)
         entry = dict(fr.locals)
         for n, f in self.inv(E, cx, fr.locals, entry):
             cx.oblige(f'loop-init.{lab}.{n}', f, 'loop-init', st.lineno)
         ch = cx.choice(2, lab)
         fr.locals.update(self.havoc(E, cx, fr.locals, entry))
+        self._havoc_unknown(E, cx, fr, unknown)
         self.after_havoc(E, cx, fr.locals, entry)
         for n, f in self.inv(E, cx, fr.locals, entry):
             cx.assume(f)
@@ -162,6 +188,7 @@ class LoopSpec:
                 pass
             except _Break:
                 return
+            self.ghost_step(E, cx, fr.locals, entry)
             for n, f in self.inv(E, cx, fr.locals, entry):
                 cx.oblige(f'loop-preserve.{lab}.{n}', f, 'loop-preserve', st.lineno)
             if m0 is not None:
@@ -200,7 +227,7 @@ class LoopSpec:
     def run_for(self, E, st, fr, cx, it):
         """for <target> in <symbolic sequence>: ghost index $i counts completed iterations."""
         tnames = {n.id for n in ast.walk(st.target) if isinstance(n, ast.Name)}
-        self._check_modifies(st, extra=tnames)
+        unknown = self._check_modifies(st, extra=tnames)
         lab = self._label(fr, st)
         entry = dict(fr.locals)
         n_len = self.seq_len(E, cx, it)
@@ -209,6 +236,7 @@ class LoopSpec:
             cx.oblige(f'loop-init.{lab}.{n}', f, 'loop-init', st.lineno)
         ch = cx.choice(2, lab)
         fr.locals.update(self.havoc(E, cx, fr.locals, entry))
+        self._havoc_unknown(E, cx, fr, unknown)
         i = cx.int('i')
         cx.assume(i.e >= 0)
         fr.locals[self.index_name] = i
@@ -228,6 +256,7 @@ class LoopSpec:
                 fr.locals.pop(self.index_name, None)
                 return
             fr.locals[self.index_name] = i + 1
+            self.ghost_step(E, cx, fr.locals, entry)
             for n, f in self.inv(E, cx, fr.locals, entry):
                 cx.oblige(f'loop-preserve.{lab}.{n}', f, 'loop-preserve', st.lineno)
             raise PathEnd('inductive step complete')
